@@ -203,8 +203,13 @@ def writer_integers(prog, topo):
             body = n.body
     if body is None:
         raise AnalysisError("writer body not found")
+    subjects = (K("len(self.x_startinds)"), K("len(self.y_regions_noguards)"))
     for s in body:
-        if isinstance(s, ast.If) and (K("len(self.x_startinds)") in T(mod, s.test) or K("len(self.y_regions_noguards)") in T(mod, s.test)):
+        # a local that names one of the dispatch subjects (`n_x = len(self.x_startinds)`) is bound first
+        if isinstance(s, ast.Assign) and len(s.targets) == 1 and isinstance(s.targets[0], ast.Name) and T(mod, s.value) in subjects:
+            ex.stmt(s, env)
+            continue
+        if isinstance(s, ast.If) and any(k in T(mod, inline_temporaries(w.node, s.test, inline_calls=True)) for k in subjects):
             try:
                 ex.stmt(s, env)
             except PathRaises as e:
